@@ -61,6 +61,9 @@ def ed(i):
 
 
 # ------------------------------------------------------------------------------------ scenarios
+IDLE_S = 1000.0  # longer than tcp_timeout (600 s) and UDP_TIMEOUT (20 s)
+
+
 class Scenario:
     """one connection's worth of messages.  msgs[i] = (direction 'c2s'|'s2c', hook name)."""
 
@@ -723,6 +726,7 @@ class Exec:
                         break  # each peer sends in order
             return sorted(out)
 
+        idled = []
         try:
             w.start()
             w.settle()
@@ -741,11 +745,20 @@ class Exec:
                         acts.append(("kill", j))
                     if not body_already_sent(h[0]):
                         acts.append(("edit", j))
+                if live_held and not idled and dl:
+                    acts.append(("idle",))  # nothing happens for longer than the idle timeout while a message is held
                 if not acts:
                     break
                 a = acts[choose(len(acts))] if len(acts) > 1 else acts[0]
                 trace.append(a)
-                if a[0] == "deliver":
+                if a[0] == "idle":
+                    idled.append(1)
+                    w.loop.advance(IDLE_S)
+                    w.settle()
+                    t.judge("held_until_resumed_across_idle_timeout", not w.client.w.closed and not w.done,
+                            dict(feats0, by="idle"), dict(case, choices=list(choices)),
+                            "the connection of an intercepted flow is not closed for inactivity", {"client_closed": w.client.w.closed, "handler_done": w.done})
+                elif a[0] == "deliver":
                     done_steps[a[1]] = True
                     for end, data in sc.segment(w, script[a[1]]):
                         w.raw(end.send, data)
